@@ -67,3 +67,33 @@ pub fn gf(v: &Value, k: &str) -> f64 {
 pub fn bits(x: f32) -> u32 {
     x.to_bits()
 }
+
+/// Decodes an f32 into the specifications' exact form [c, s, m, e]
+/// (see spec/F32.tla): value = (-1)^s * m * 2^e.
+pub fn f32_rec(x: f32) -> serde_json::Value {
+    let b = x.to_bits();
+    let s = b >> 31;
+    let ex = ((b >> 23) & 0xFF) as i32;
+    let fr = b & 0x7F_FFFF;
+    if ex == 255 {
+        return if fr == 0 { serde_json::json!([2, s, 0, 0]) } else { serde_json::json!([3, 0, 0, 0]) };
+    }
+    if ex == 0 && fr == 0 {
+        return serde_json::json!([0, s, 0, 0]);
+    }
+    let (m, e) = if ex == 0 { (fr, -149) } else { (fr | 0x80_0000, ex - 150) };
+    serde_json::json!([1, s, m, e])
+}
+
+/// Inverse of `f32_rec` (also accepts unnormalised significands).
+pub fn f32_from_rec(v: &Value) -> f32 {
+    let a = v.as_array().expect("f32 record");
+    let g = |i: usize| a[i].as_i64().unwrap();
+    let sign = if g(1) == 1 { -1.0f64 } else { 1.0 };
+    match g(0) {
+        0 => (sign * 0.0) as f32,
+        1 => (sign * g(2) as f64 * 2f64.powi(g(3) as i32)) as f32,
+        2 => (sign * f64::INFINITY) as f32,
+        _ => f32::NAN,
+    }
+}
